@@ -23,8 +23,8 @@ type zzStream struct {
 	mu          sync.Mutex
 	out         []byte
 	writes      int
-	failAt      int // fail the k-th Write (1-based) when > 0
-	failFrom    int // fail the k-th Write and every later one (a broken pipe that was not noticed yet)
+	failAt      int           // fail the k-th Write (1-based) when > 0
+	failFrom    int           // fail the k-th Write and every later one (a broken pipe that was not noticed yet)
 	wrote       chan struct{} // signalled (without blocking) after every successful Write
 	eof         bool
 	onWrite     func(p []byte) // called (outside the stream lock) before Write returns
